@@ -204,6 +204,13 @@ func (srv6) Valid(i int, t *simrt.Tape) []byte {
 		m.AddOption(dhcpv6.OptServerID(&dhcpv6.DUIDLL{HWType: 1, LinkLayerAddr: net.HardwareAddr{2, 9, 9, 9, 9, byte(t.Choose(3))}}))
 	}
 	var d dhcpv6.DHCPv6 = m
+	if t.Coin(1, 12) {
+		// a relay envelope that carries no relay-message option (only an interface id):
+		// the library decodes it, so it is a valid datagram for the handler
+		d = &dhcpv6.RelayMessage{MessageType: dhcpv6.MessageTypeRelayForward, HopCount: uint8(i), LinkAddr: net.ParseIP("2001:db8::77"),
+			PeerAddr: net.ParseIP(fmt.Sprintf("fe80::%x", 1+i%200)),
+			Options: dhcpv6.RelayOptions{Options: dhcpv6.Options{dhcpv6.OptInterfaceID([]byte{byte(i >> 8), byte(i), 0x1f})}}}
+	}
 	for depth := t.Weighted(5, 2, 1, 1); depth > 0; depth-- {
 		typ := dhcpv6.MessageTypeRelayForward
 		if t.Coin(1, 3) {
@@ -237,6 +244,7 @@ type srvRx struct {
 	seq   int
 	bytes []byte
 	from  net.Addr
+	peer  string // the peer the handler must be given, computed when the datagram was read
 	canon []byte
 	valid bool
 	taken bool
@@ -246,6 +254,7 @@ type srvInv struct {
 	seq       int
 	endSeq    int
 	peer      string
+	peerAtEnd string
 	ptr       interface{}
 	atStart   []byte
 	atEnd     []byte
@@ -325,7 +334,7 @@ func (st *srvState) start(tier string) {
 				nread = len(d.b) // judged as on the wire: the servers read up to 4096 bytes
 			}
 			b := append([]byte(nil), d.b[:nread]...)
-			r := &srvRx{bytes: b, from: d.from}
+			r := &srvRx{bytes: b, from: d.from, peer: p.ExpectPeer(d.from)}
 			r.canon, r.valid = p.Canon(b)
 			r.seq = s.Ev("rx", -1, int64(len(st.rx)), fmt.Sprintf("%s len=%d valid=%v from=%v", d.tag, nread, r.valid, d.from), nil)
 			st.rx = append(st.rx, r)
@@ -510,6 +519,12 @@ func (st *srvState) handler(waitNextNum int) func(peer net.Addr, m interface{}) 
 			inv.wroteOwn = true
 			scribbleOwn(reflect.ValueOf(m), 0)
 			s.Probe("handler-writes-into-its-own-message")
+			// ... and with the peer address it was given (e.g. set the reply port in place)
+			if u, ok := peer.(*net.UDPAddr); ok && u != nil && t.Coin(1, 2) {
+				u.Port = 9 // (never the IP bytes: they may be one of package net's shared values)
+				inv.peerAtEnd = ""
+				peer = nil
+			}
 		}
 		// outlive the next reads
 		if st.nextGates != nil && waitNextNum > 0 && t.Coin(waitNextNum, 100) {
@@ -522,6 +537,9 @@ func (st *srvState) handler(waitNextNum int) func(peer net.Addr, m interface{}) 
 			sleep(pick(t, 0, 0, ms(1), ms(5), ms(20)), siteSrvHandler)
 		}
 		inv.atEnd = p.MsgBytes(m)
+		if peer != nil {
+			inv.peerAtEnd = peer.String()
+		}
 		inv.done = true
 		inv.endSeq = s.Ev("handler.end", idx, int64(len(inv.atEnd)), "", nil)
 	}
@@ -564,7 +582,6 @@ func scribbleOwn(v reflect.Value, depth int) {
 }
 
 func (st *srvState) oracle(v *vio) {
-	p := st.p
 	if st.startErr != nil {
 		v.add("harness", "server construction failed: %v", st.startErr)
 		return
@@ -589,7 +606,7 @@ func (st *srvState) oracle(v *vio) {
 	want := map[string]int{}
 	for _, r := range st.rx {
 		if r.valid {
-			want[p.ExpectPeer(r.from)+"|"+string(r.canon)]++
+			want[r.peer+"|"+string(r.canon)]++
 		}
 	}
 	got := map[string]int{}
@@ -603,6 +620,9 @@ func (st *srvState) oracle(v *vio) {
 		ptrs[inv.ptr]++
 		if ptrs[inv.ptr] == 2 {
 			v.add("V-shared", "handler invocations share one message object (invocation %d)", i)
+		}
+		if inv.done && inv.peerAtEnd != "" && inv.peerAtEnd != inv.peer {
+			v.add("V-peer-mutated", "handler invocation %d: its peer address was %s when it started and %s when it finished (later datagrams were read meanwhile)", i, inv.peer, inv.peerAtEnd)
 		}
 		if inv.done && !inv.wroteOwn && !bytes.Equal(inv.atStart, inv.atEnd) {
 			v.add("V-mutated", "handler invocation %d: the message changed while the handler ran (later datagrams were read meanwhile): %d bytes at start, %d at end", i, len(inv.atStart), len(inv.atEnd))
